@@ -18,6 +18,16 @@ NEEDS = {
     'C13-r7m2': 'symmetric form with 0.25 < frac(R/res) < 0.5 and a point near +R (own count with round())',
     'C14-r7m1': 'one caster, two casts whose origins are different points of the same cell',
     'C14-r7m2': 'an oblique ray that crosses no cell border along one axis (step from the indexes, tMax guarded by the direction)',
+    'C09-r8m1': 'an estimator copy-constructed from another one that is still alive (eigen results held by reference to the own solver)',
+    'C09-r8m2': 'a double point type, non-planar cloud, k-th and (k+1)-th neighbour distances closer than float rounding (adaptor returns float)',
+    'C17-r8m1': 'a first data stamp at exactly 0 ns, report read at stamp W+1 (non-increasing guard against the initial last stamp)',
+    'C17-r8m2': 'two or more late heartbeats within one silence (timeout clears hasData_)',
+    'C18-r8m1': 'on one CheckupLowerThan: an evaluation giving ERROR, then a value in [max - eps, max + eps) (hysteresis)',
+    'C18-r8m2': 'the same (status, message) pair twice in the aggregated lists (de-duplication on append)',
+    'C19-r8m1': 'a reader copying the report of a Checkup (or CheckupRate) while the writer is inside evaluate() (reference returned under the lock)',
+    'C19-r8m2': 'a consume() overlapping a store() or another consume() (unlocked empty fast path)',
+    'C20-r8m1': 'construct an interval, include() another that enlarges it, then build the box from it (cached centre / width)',
+    'C20-r8m2': 'a homogeneous point type and the last component of getPointSetMean()',
     'C10-r8m1': 'roll != 0, pitch != 0 and cos(roll) != cos(yaw) together (written-out entry (0,1) of Rz Ry Rx)',
     'C10-r8m2': 'the scalar overload SphericalTransform::elevation(x, y, z) (arguments handed on in the old order)',
     'C11-r8m1': 'on one thread, T * tilted pose then T * planar pose (static thread_local rotation, init() skips exact zeros)',
